@@ -111,7 +111,13 @@ func metadataMergeInterceptor(old, new proto.Message) {
 	// so we have to do it ourselves.
 	oldVal := old.(*traits.Metadata)
 	newVal := new.(*traits.Metadata)
-	newVal.Traits = oldVal.Traits
+	// start from a deep copy of the existing traits: old is the live stored message and must not be written to
+	// (mergeTraitMetadata merges into the elements and the slice is sorted in place below), and new, which the
+	// caller owns, must not end up sharing messages with it.
+	newVal.Traits = make([]*traits.TraitMetadata, len(oldVal.Traits))
+	for i, trait := range oldVal.Traits {
+		newVal.Traits[i] = proto.Clone(trait).(*traits.TraitMetadata)
+	}
 	for _, trait := range cleanTraits {
 		newVal.Traits = mergeTraitMetadata(newVal.Traits, trait)
 	}
